@@ -182,7 +182,8 @@ def regenerate():
 
 def make(target=None, clean=False):
     """Full .vo build (never -vos). Returns (ok, log)."""
-    if not os.path.exists(os.path.join(COQ, "Makefile")) or clean:
+    mk, proj = os.path.join(COQ, "Makefile"), os.path.join(COQ, "_CoqProject")
+    if not os.path.exists(mk) or clean or os.path.getmtime(proj) > os.path.getmtime(mk):
         rc, out = sh("coq_makefile -f _CoqProject -o Makefile", cwd=COQ)
         if rc != 0:
             return False, out
